@@ -20,6 +20,7 @@ LEVEL = "exploration"
 TECHNIQUE = "deterministic simulation across interpreter processes with simulator-chosen PYTHONHASHSEED (S-PROC) and seeded construction/load histories; cross-process log agreement + field-wise round-trip reference"
 RUNS = {"quick": 60, "thorough": 1500}  # histories (each replicated in every hash-seed slot)
 HASHSEED_SLOTS = {"quick": 3, "thorough": 12}
+OPTIMIZE_SLOTS = {"quick": [2], "thorough": [2, 5, 8, 11]}  # hash-seed slots whose interpreter runs under `python -O` (asserts stripped)
 FRESH = {"quick": 4, "thorough": 16}
 JOB_TIMEOUT = 600.0
 
